@@ -402,6 +402,10 @@ class C06Life(Monitor):
                 self_term = False
         if cname == "LocalDeme":
             self_term = True
+            mi = getattr(deme, "_options", {}).get("maxiter")
+            if mi is not None and len(getattr(deme, "_run_history", ())) >= mi:
+                # scipy reports one iterate per iteration: the search used up its iteration budget (it did not converge first)
+                self.cov("local_search_cut_short_by_its_iteration_limit")
         if self.was_active.get(deme.id) and not deme.is_active:
             causes = [c for c, f in (("lsc", lsc_true), ("gsc", gsc_true), ("engine", self_term)) if f]
             if not causes:
